@@ -28,7 +28,7 @@ OK_LIKE = ('Result::Ok', 'Option::None', 'ControlFlow::Continue')       # varian
 ERR_LIKE = ('Result::Err', 'Option::Some', 'ControlFlow::Break')        # variant index 1
 
 
-def reach_x(body, starts, stop=(), assume_stmt=None, assume_call=None, init=None):
+def reach_x(body, starts, stop=(), assume_stmt=None, assume_call=None, init=None, watch=None, seen_vals=None):
     """forward reachability that follows only the feasible side of a switch when the switched value is
     known on the path.  Known values: bool constants and their copies / negations; the variant of a
     Result / Option / ControlFlow built on the path (aggregate, `from_residual`, `Try::branch` of a
@@ -64,6 +64,8 @@ def reach_x(body, starts, stop=(), assume_stmt=None, assume_call=None, init=None
         t = blk['term']
         succs = body.succ(bi)
         if t['k'] == 'call':
+            if watch and bi in watch and seen_vals is not None:
+                seen_vals.setdefault(bi, set()).add(e.get(watch[bi], 'unknown'))         # value of a local when this call is reached
             if not t['dst']['p']:
                 dl = t['dst']['l']
                 nm = t['r'] or t['f']; a0 = t['args'][0] if t['args'] else None
@@ -279,12 +281,16 @@ def min_rules(ctx):
         s = ctx.S.slice_operand(b, st['rv']['ops'][0])
         oks = oks and bi in maxr and s.has_const(r'Sense::Minimize') and not s.has_const(r'Sense::Maximize')
     ctx.check(oks and every_other_path_passes([bi for bi, st in sw]), R + '/sense-becomes-minimize', 'T-CONST', b.name, 'sense is not set to Minimize on every path of a maximisation problem', b.site())
-    oko = bool(ow)
+    oko = bool(ow); neg_impls = set()
     for bi, st in ow:
-        ex = T.expr(b, st['rv']['ops'][0], depth=10)
-        negs = [x for x in T.expr_walk(ex) if x[0] == 'call' and x[1] == 'neg']
-        oko = oko and (ex[0] == 'agg' and ex[1].endswith('Option::Some') and len(negs) == 1 and bool(re.search(r'ops::Neg for v1::Function', negs[0][2]))
-                       and T.expr_has_call(negs[0][3][0], 'objective') and bi in maxr)
+        ex = T.expr(b, st['rv']['ops'][0], depth=12)
+        negs = function_negations(ex)
+        # exactly one negation, of what the getter `objective()` returns (owned, borrowed, cloned: the conversions are transparent)
+        oko = oko and (ex[0] == 'agg' and ex[1].endswith('Option::Some') and len(negs) == 1 and T.expr_has_call(negs[0][1], 'objective')
+                       and not [x for x in T.expr_walk(ex) if x[0] == 'call' and x[1] in ('neg', 'mul', 'sub', 'div', 'add') and x is not negs[0][0]] and bi in maxr)
+        for n, arg in negs:
+            c = [x for x in b.calls if x.bb == n[4]]
+            if c and n[1] == 'neg': neg_impls.add(c[0].path)
     ctx.check(oko and every_other_path_passes([bi for bi, st in ow]) and at_most_once([bi for bi, st in ow]), R + '/objective-negated-once', 'T-BRANCHFX', b.name,
               'objective is not replaced by Some(-objective()) exactly once on the maximisation path', b.site())
     writes_only(ctx, R + '/only-sense-and-objective', b, {'sense', 'objective'})
@@ -293,13 +299,39 @@ def min_rules(ctx):
     if adt:
         d = {v['name']: v['discr'] for v in adt['variants']}
         ctx.check(d.get('Minimize') == 1 and d.get('Maximize') == 2, R + '/enum-numbers', 'T-CONST', 'v1::instance::Sense', 'Sense numbers are %s, schema says MINIMIZE=1, MAXIMIZE=2' % d)
-    # Neg for Function really negates: delegates to `* -1` or per-variant negation
+    # Neg for Function really negates: delegates to `* -1` or per-variant negation.  Decided for the owned impl (anchor) and for
+    # whichever impl (`Neg for Function` / `Neg for &Function`) the conversion actually calls.
     nb = ctx.F.one('v1::Function', 'neg', trait='Neg')
-    if nb is not None:
+    impls = [nb] if nb is not None else []
+    for pth in sorted(neg_impls):
+        x = ctx.F.bodies.get(pth)
+        if x is not None and x not in impls: impls.append(x)
+        elif x is None: ctx.bad(R + '/function-neg', 'T-DELEG', b.name, 'the negation used (%s) has no body in the crate' % pth[:80], b.site())
+    for nb in impls:
         ctx.fn(nb)
         s = ctx.S.backslice(nb, [0])
         ok = 1 in s.params and (s.has_const(r'^-1f64$') or s.has_call(r'ops::Neg'))
         ctx.check(ok, R + '/function-neg', 'T-DELEG', nb.name, 'Neg for Function neither multiplies by -1 nor negates its payload', nb.site())
+
+
+# Ways of writing `minus a Function`  (what is negated = the non-constant operand)
+#   -f            <Function as Neg>::neg(f)            impl for v1::Function
+#   -&f           <&Function as Neg>::neg(&f)          impl for &v1::Function
+#   f * -1.0      <Function as Mul<f64>>::mul(f, -1.0) / <&Function as Mul<f64>>  ;  -1.0 * f  <f64 as Mul<Function>>
+FN_TY = r'&?\s*v1::Function'
+
+
+def function_negations(ex):
+    """[(call node, negated operand expr)] for every negation of a Function inside expression `ex`"""
+    out = []
+    for x in T.expr_walk(ex):
+        if x[0] != 'call': continue
+        if x[1] == 'neg' and re.search(r'ops::Neg for ' + FN_TY + r'>::neg$', x[2]) and x[3]:
+            out.append((x, x[3][0]))
+        elif x[1] == 'mul' and len(x[3]) == 2 and re.search(r'ops::Mul<.*> for .*>::mul$', x[2]) and re.search(FN_TY, x[2]):
+            cs = [i for i, a in enumerate(x[3]) if a[0] == 'const' and T.f64_const(a[1]) == -1.0]
+            if len(cs) == 1: out.append((x, x[3][1 - cs[0]]))
+    return out
 
 
 # ------------------------------------------------------------------------------------------------ best
@@ -646,6 +678,102 @@ def pair_rules(ctx):
             keeps_true_flags(ctx, R + '/%s/keeps-true-flags' % fn, b)
 
 
+# ----------------------------------------------------------------------------- objective of one sample
+# Membership of the sample id in an entry's id list.  NOT in the table: `binary_search(..).is_ok()` (only equivalent on a
+# sorted list; nothing keeps `ids` sorted -- seed C15-6), `first() == Some(&id)`, `last()`, range tests.
+#   ids.contains(&id)                      <[u64]>::contains / Vec::contains
+#   ids.iter().any(|x| *x == id)           normal form: inner loop with `x == id`  (also position(..).is_some(), find(..).is_some())
+MEMBER_CALLS = ('contains',)
+SOME_KEEPING = re.compile(r'Option::<.*>::(map|copied|cloned|as_ref|as_deref|inspect)(::<.*>)?$')      # Some iff the receiver is Some
+
+
+def lookup_rules(ctx):
+    """SampledValues::get(id) = value of the (first) entry whose ids contain id, None if there is none.
+    best() ranks samples by what this returns, SampleSet::get reports it."""
+    R = 'C15.lookup'
+    ENT = 'v1::sampled_values::SampledValuesEntry'
+    b = ctx.method(R + '/anchor', 'v1::SampledValues', 'get')
+    if b is None: return
+    def over_entries(lo):
+        e = T.expr(b, lo[0].args[0], depth=14)          # self.entries itself, not something reached through another loop's item
+        return any(f == 'entries' for a, f in T.expr_fields(e)) and not any(x[1] == 'next' for x in T.expr_calls(e))
+    loops = [lo for lo in T.for_loops(b) if over_entries(lo)]
+    ctx.check(len(loops) == 1, R + '/entries-loop', 'T-LOOPMUST', b.name, 'no (single) loop over self.entries', b.site())
+    if len(loops) != 1: return
+    lo = loops[0]; nxt, header, some_bb, none_bb, blocks = lo
+    site = b.site(nxt.bb)
+    it = T.expr(b, nxt.args[0], depth=14)
+    restr = sorted({x[1] for x in T.expr_calls(it) if x[1] in RESTRICTING or x[1] in ('rev',)})
+    ctx.check(not restr, R + '/every-entry', 'T-LOOPMUST', b.name, 'the entries are restricted / reordered by %s' % restr, site)
+    # ---- membership tests of the id in *this* entry's ids
+    def of_item_ids(op):
+        e = T.expr(b, op, depth=14)
+        return any(f == 'ids' for a, f in T.expr_fields(e)) and any(x[0] == 'call' and len(x) > 4 and x[4] == nxt.bb for x in T.expr_walk(e))
+    def is_key(op):
+        s_ = ctx.S.slice_operand(b, op)
+        return 2 in s_.params and not s_.has_field(ENT, 'ids')
+    a_call = {}; a_stmt = {}
+    for c in b.calls:
+        if c.item in MEMBER_CALLS and len(c.args) == 2 and re.search(r'(\[u64\]|Vec::<u64>|Vec<u64>)', c.name) and of_item_ids(c.args[0]) and is_key(c.args[1]):
+            a_call[c.bb] = None
+    for bi, st in b.stmts():
+        rv = st['rv']
+        if rv['k'] == 'bin' and rv['op'] in ('Eq', 'Ne') and not st['dst']['p']:
+            sl = [ctx.S.slice_operand(b, o) for o in rv['ops']]
+            for x, y, oy in ((sl[0], sl[1], rv['ops'][1]), (sl[1], sl[0], rv['ops'][0])):
+                if x.has_field(ENT, 'ids') and nxt in x.call_objs and is_key(oy): a_stmt[id(st)] = (rv['op'] == 'Ne'); break
+    ctx.check(bool(a_call) or bool(a_stmt), R + '/membership', 'T-GUARD', b.name,
+              'no test whether the sample id is among the ids of the entry (ids.contains(&id) or an equivalent element-wise comparison)', site)
+    if not a_call and not a_stmt: return
+    # ---- where the result can become Some(..)
+    some_sites = set(); cond_sites = {}; unknown = []; result_locals = set()
+    def walk(l, depth=0):
+        result_locals.add(l)
+        for k, bi, d in b.defs_of(l):
+            if k == 'stmt':
+                if d['dst']['p']: unknown.append(bi); continue
+                rv = d['rv']
+                if rv['k'] == 'agg' and rv['adt'].endswith('Option::Some'): some_sites.add(bi)
+                elif rv['k'] == 'agg' and rv['adt'].endswith('Option::None'): pass
+                elif rv['k'] == 'use' and rv['ops'][0]['k'] in ('copy', 'move') and not rv['ops'][0]['pl']['p'] and depth < 8: walk(rv['ops'][0]['pl']['l'], depth + 1)
+                else: unknown.append(bi)
+            else:
+                nm = d['r'] or d['f']; a0 = d['args'][0] if d['args'] else None
+                if SOME_KEEPING.search(nm) and a0 and a0['k'] in ('copy', 'move') and not a0['pl']['p'] and depth < 8: walk(a0['pl']['l'], depth + 1)
+                elif re.search(r'bool>::then_some(::<.*>)?$', nm) and a0 and a0['k'] in ('copy', 'move') and not a0['pl']['p']: cond_sites[bi] = a0['pl']['l']
+                else: unknown.append(bi)
+    walk(0)
+    ctx.check(not unknown and (some_sites or cond_sites), R + '/result-shape', 'T-CARRY', b.name, 'how the result becomes Some(..) is not recognised (bb%s)' % sorted(set(unknown)), site)
+    if unknown or not (some_sites or cond_sites): return
+    def neg(member):
+        # assumed results of all membership tests when the id is / is not in the entry (a_stmt holds the value for `not in`)
+        return {k: member for k in a_call}, {k: (x if not member else not x) for k, x in a_stmt.items()}
+    # id in no entry  =>  never Some
+    ac, as_ = neg(False); seen = {}
+    r = reach_x(b, [0], assume_call=ac, assume_stmt=as_, watch=cond_sites, seen_vals=seen)
+    probs = []
+    if r & some_sites: probs.append('Some(..) is reachable although no membership test succeeded (bb%s)' % sorted(r & some_sites))
+    if any(v is not False for bi in cond_sites if bi in r for v in seen.get(bi, ())): probs.append('then_some(..) can yield Some although no membership test succeeded')
+    ctx.check(not probs, R + '/absent-is-none', 'T-BRANCHFX', b.name, '; '.join(probs), site)
+    # id in this entry  =>  Some, without looking further
+    ac, as_ = neg(True); seen = {}
+    hits = some_sites | {bi for bi in cond_sites}
+    nothing_yet = {l: ('V', 0) for l in result_locals}      # `if found.is_none() && ..`: an entry may be passed over once the result is there
+    # element-wise membership (`ids.iter().any(|x| *x == id)`): with every comparison true the inner loop can only be left
+    # unsuccessfully when `ids` is empty, i.e. when the id is not in it -- not a path of this probe
+    inner_exhausted = {lo2[3] for lo2 in T.for_loops(b) if lo2[0].bb in blocks and lo2[0] is not nxt} if a_stmt else set()
+    r = reach_x(b, [some_bb], stop=hits | inner_exhausted, assume_call=ac, assume_stmt=as_, init=nothing_yet)
+    r2 = reach_x(b, [some_bb], assume_call=ac, assume_stmt=as_, init=nothing_yet, watch=cond_sites, seen_vals=seen)
+    probs = []
+    if header in r: probs.append('an entry containing the id can be passed over')
+    if any(v is not True for bi in cond_sites if bi in r2 for v in seen.get(bi, ())): probs.append('then_some(..) can yield None for an entry containing the id')
+    ctx.check(not probs, R + '/present-is-found', 'T-BRANCHFX', b.name, '; '.join(probs), site)
+    # ---- what is returned is that entry's value
+    rs = ctx.S.backslice(b, [0])
+    ctx.check(rs.has_field(ENT, 'value') and nxt in rs.call_objs, R + '/returns-value', 'T-CARRY', b.name,
+              'the result is not the `value` of the entry found', site)
+
+
 # --------------------------------------------------------------------------------- legacy field fallback
 def legacy_rules(ctx):
     R = 'C15.legacy'
@@ -685,9 +813,11 @@ def legacy_rules(ctx):
 # "sample sets decoded from messages written by older releases": the field numbers of SampleSet (and of
 # what it contains) are decided by the C07 schema tables — re-decided here for those messages
 RELIES_ON = {'C07': ['C07.history/field/ommx.v1.SampleSet#', 'C07.history/name/ommx.v1.SampleSet', 'C07.rust/field/ommx.v1.SampleSet', 'C07.python/field/ommx.v1.SampleSet',
-                     'C07.history/name/ommx.v1.SampledValues', 'C07.history/name/ommx.v1.SampledConstraint', 'C07.history/name/ommx.v1.SampledDecisionVariable']}
+                     'C07.history/name/ommx.v1.SampledValues', 'C07.history/name/ommx.v1.SampledConstraint', 'C07.history/name/ommx.v1.SampledDecisionVariable'],
+             # objectives and feasibility flags are read through the compressed-value lookup (seed C15-6 broke it)
+             'C06': ['C06.compress']}
 
 
 def check(ctx):
-    min_rules(ctx); best_rules(ctx); pair_rules(ctx); legacy_rules(ctx)
-    ctx.floor('C15.min', 7); ctx.floor('C15.best', 15); ctx.floor('C15.pair', 10); ctx.floor('C15.legacy', 2)
+    min_rules(ctx); best_rules(ctx); pair_rules(ctx); legacy_rules(ctx); lookup_rules(ctx)
+    ctx.floor('C15.min', 7); ctx.floor('C15.best', 15); ctx.floor('C15.pair', 10); ctx.floor('C15.legacy', 2); ctx.floor('C15.lookup', 7)
